@@ -910,17 +910,46 @@ func (c *conc) compareDef(cs *Case, rq request, o *observation) []mismatch {
 	return mm
 }
 
-// attrKindOf: the kind of the top-level attribute a flattened path belongs to, and of the leaf's container
+// attrKindOf: how the flattened path is reached inside the span's attributes: a scalar attribute ("str", "int", ...), an
+// element reached through a list ("list-element") or only through maps ("map-element")
 func attrKindOf(attrs []KV, path []string) string {
 	for _, kv := range attrs {
-		if len(path) > 0 && kv.K == path[0] {
-			v := kv.V
-			top := v.T
-			if len(path) == 1 {
-				return top
-			}
-			return top + "-element"
+		if len(path) == 0 || kv.K != path[0] {
+			continue
 		}
+		v := kv.V
+		if len(path) == 1 {
+			return v.T
+		}
+		throughList := false
+		for _, seg := range path[1:] {
+			switch v.T {
+			case "list":
+				throughList = true
+				i, err := strconv.Atoi(seg)
+				if err != nil || i >= len(v.E) {
+					return "?"
+				}
+				v = v.E[i]
+			case "map":
+				found := false
+				for _, m := range v.KV {
+					if m.K == seg {
+						v, found = m.V, true
+						break
+					}
+				}
+				if !found {
+					return "?"
+				}
+			default:
+				return "?"
+			}
+		}
+		if throughList {
+			return "list-element"
+		}
+		return "map-element"
 	}
 	return "?"
 }
